@@ -1,7 +1,7 @@
 (* Extraction of the executable model and oracles.  ExtrOcamlBasic only: numbers stay
    the extracted inductives (positive / N / Z / nat). *)
 From Coq Require Import ExtrOcamlBasic ZArith.
-From ZV Require Import Str Dec Rx RegexSrc Sanitize SanitizeSpec SemVer Pep440 Calendar Timestamp Zerv Render.
+From ZV Require Import Str Dec Rx RegexSrc Sanitize SanitizeSpec SemVer Pep440 Calendar Timestamp Zerv Render Convert.
 Extraction Language OCaml.
 Extraction "Extract/model.ml"
   N.div N.modulo N.add N.mul Z.add
@@ -17,4 +17,5 @@ Extraction "Extract/model.ml"
   Pep440.pep_parse Pep440.pep_extract Pep440.pep_print Pep440.pep_cmp Pep440.pep_eqb Pep440.pep_check
   Pep440.pep_caps
   Timestamp.resolve_timestamp Timestamp.is_valid_timestamp_pattern Calendar.dt_of_secs Timestamp.u64_as_i64
-  Zerv.schema_validate Zerv.default_prec Zerv.comp_value Zerv.comp_expanded Render.semver_of_zerv Render.pep_of_zerv Render.schema_with_zerv Render.fixed_schema.
+  Zerv.schema_validate Zerv.default_prec Zerv.comp_value Zerv.comp_expanded Render.semver_of_zerv Render.pep_of_zerv Render.schema_with_zerv Render.fixed_schema
+  Convert.render_cmd Convert.zerv_of_semver Convert.zerv_of_pep Convert.parse_version Convert.format_zerv.
